@@ -320,25 +320,25 @@ def _return_elt(fn: ast.FunctionDef, i: int):
     return fn
 
 
-def _check_keys(repo, col, cinfo, kind):
+def _check_keys(repo, col, cinfo, kind, R="R-C04-keys", methods=("update_states", "compute_current", "init_state")):
     pa, sa_ = ("channel_params", "channel_states") if kind == "channel" else ("synapse_params", "synapse_states")
     dp, ds = _declared(repo, cinfo, pa), _declared(repo, cinfo, sa_)
     init = cinfo.methods.get("__init__")
     if dp is None or ds is None:
-        col.unk("R-C04-keys", cinfo.file, f"{cinfo.name}.__init__", f"{pa}/{sa_} are not dict displays",
+        col.unk(R, cinfo.file, f"{cinfo.name}.__init__", f"{pa}/{sa_} are not dict displays",
                 func=f"{cinfo.name}.__init__")
         return
     for pat, (k, _v, knode) in list(dp.items()) + list(ds.items()):
         if pat is None:
-            col.unk("R-C04-keys", init, knode, "key is neither a literal nor built from self._name")
+            col.unk(R, init, knode, "key is neither a literal nor built from self._name")
         else:
             # a prefixed key must be built from self._name, never from the literal class name
             lit_cls = k == "literal" and pat.startswith(cinfo.name + "_")
-            col.check(not lit_cls, "R-C04-keys", init, f"declared key {pat}",
+            col.check(not lit_cls, R, init, f"declared key {pat}",
                       "declared key is unprefixed or built from self._name",
                       f"key `{pat}` hard-codes the class name; renaming the mechanism would not rename it",
                       node=knode)
-    for mname in ("update_states", "compute_current", "init_state"):
+    for mname in methods:
         if mname not in cinfo.methods:
             continue
         fi = cinfo.methods[mname]
@@ -353,7 +353,7 @@ def _check_keys(repo, col, cinfo, kind):
                 if pat is None:
                     dynamic_keys = True
                     continue
-                col.check(pat in decl, "R-C04-keys", fi, f"{n.value.id}[{pat}]",
+                col.check(pat in decl, R, fi, f"{n.value.id}[{pat}]",
                           "key is declared by the class",
                           f"`{unparse(n)}` reads key pattern `{pat}` which {cinfo.name} does not declare in "
                           f"{'its states' if n.value.id == 'states' else 'its parameters'} "
@@ -370,21 +370,21 @@ def _check_keys(repo, col, cinfo, kind):
                     r, S, P = kin.call_current(ev, repo, cinfo.name, kind)
                 for d, decl, what in ((S, ds, "states"), (P, dp, "params")):
                     for key in sorted(set(d.reads)):
-                        col.check(key in decl, "R-C04-keys", fi, f"{what}[{key}] (key computed at run time)", "key is declared by the class",
+                        col.check(key in decl, R, fi, f"{what}[{key}] (key computed at run time)", "key is declared by the class",
                                   f"{mname} reads key `{key}` which {cinfo.name} does not declare (declared: {sorted(p for p in decl if p)})",
                                   node=fi.node)
                 if isinstance(r, dict) and mname != "compute_current":
                     for key in r:
-                        col.check(key in ds, "R-C04-keys", fi, f"returned key {key} (computed at run time)", "returned key is a declared state",
+                        col.check(key in ds, R, fi, f"returned key {key} (computed at run time)", "returned key is a declared state",
                                   f"{mname} returns key `{key}` which is not a declared state of {cinfo.name}", node=fi.node)
             except Und as e:
-                col.unk("R-C04-keys", fi, f"{mname}: keys computed at run time", f"outside the analysable fragment: {e}", node=fi.node)
+                col.unk(R, fi, f"{mname}: keys computed at run time", f"outside the analysable fragment: {e}", node=fi.node)
         # returned dict keys must be declared states
         for n in walk_no_nested(fi.node):
             if isinstance(n, ast.Return) and isinstance(n.value, ast.Dict) and mname != "compute_current":
                 for kx in n.value.keys:
                     pat, k = _pattern_of_key(kx, pn)
-                    col.check(pat in ds, "R-C04-keys", fi, f"returned key {pat}",
+                    col.check(pat in ds, R, fi, f"returned key {pat}",
                               "returned key is a declared state",
                               f"{mname} returns key `{pat}` which is not a declared state of {cinfo.name}", node=kx)
 
@@ -453,6 +453,17 @@ def _dict_rewrite(repo, fi, ex, t):
             return None
         f_ = fills[0]
         K, V, it = idx.subst(f_.key, m), idx.subst(f_.value, m), idx.subst(f_.guards[-1].args[0], m)
+    elif t.op == "dict" and not t.args:
+        # a fresh dictionary filled in a loop of this function:  d = {}; for k, v in SRC.items(): d[K(k)] = V(v)
+        fills = [s_ for s_ in ex.stores if s_.kind == "sub" and s_.base.op == "dict" and s_.base.node is t.node and
+                 s_.guards and all(g.op == "loop" for g in s_.guards)]
+        if len(fills) != 1 or len(fills[0].guards) != 1:
+            return None
+        f_ = fills[0]
+        K, V, it = f_.key, f_.value, f_.guards[0].args[0]
+        # the key map may be a local helper (`rename(key)`)
+        K = idx.inline(repo, fi, K, value_only=True)
+        V = idx.inline(repo, fi, V, value_only=True)
     else:
         return None
     if not (it.op == "mcall" and it.name == "items"):
@@ -544,7 +555,10 @@ def _check_rename(repo, col):
             maps[fi.qual] = Ka
     if len(maps) == 2:
         a, b = list(maps.values())
-        col.check(a.key() == b.key(), "R-C04-rename", sy, "sibling agreement",
+        pa_, pb_ = (f_.params[1] if len(f_.params) > 1 else None for f_ in (ch, sy))
+        # both are the prefix swap (each held to the same specification above), or they are written identically
+        both_ok = _prefix_swap_verdict(a, pa_) == "ok" and _prefix_swap_verdict(b, pb_) == "ok"
+        col.check(both_ok or a.key() == b.key(), "R-C04-rename", sy, "sibling agreement",
                   "Channel.change_name and Synapse.change_name use the same key map",
                   "Channel.change_name and Synapse.change_name rename keys differently", node=sy.node)
 
